@@ -60,10 +60,13 @@ def init (cfg : List String) : Option St := do
   let roles := list? ((kv? cfg "roles").getD "-")
   let maxc ← (kv? cfg "maxconn").bind nat?
   let pipe ← (kv? cfg "pipeline").bind nat?
-  if pl = 0 ∨ roles.any (fun r => r ≠ "s" ∧ r ≠ "c" ∧ r ≠ "a") then none else
+  -- roles: s honest seeder (agent storage), o origin (origin storage), c seeder corrupting every piece it serves,
+  -- i seeder corrupting every other piece it serves, a agent, k agent that corrupts every piece it serves
+  if pl = 0 ∨ roles.any (fun r => !["s", "o", "c", "i", "a", "k"].contains r) then none else
   let mi := MetaInfo.ofBlob crc32 pl blob
   let peers : List Peer := roles.map fun r =>
-    if r = "a" then { tor := KrakenModel.AgentTorrent.init mi } else { tor := seedState mi blob, corrupt := r = "c" }
+    if r = "a" ∨ r = "k" then { tor := KrakenModel.AgentTorrent.init mi, corrupt := r = "k" }
+    else { tor := seedState mi blob, corrupt := r = "c" ∨ r = "i" }
   some { sw := { cfg := { maxConns := maxc, pipeline := pipe }, peers := peers }, pl := pl, blob := blob,
          pms := roles.map fun r => { role := r } }
 
@@ -155,25 +158,31 @@ def stepCore (s : St) (kind : String) (args impl : List String) : Option (St × 
     let pf :=
       (if ma.received.contains i || ma.initial.contains i then
         [s!"side=impl key=double-receive peer p{a} accepted piece {i} twice"] else []) ++
-      (if mb.role == "c" then [s!"side=impl key=accepted-from-corrupt peer p{a} accepted piece {i} from the corrupting peer p{b}"] else [])
+      (if mb.role == "c" || mb.role == "k" then
+        [s!"side=impl key=accepted-from-corrupt peer p{a} accepted piece {i} from the corrupting peer p{b}"] else [])
+    -- the bytes the implementation accepted (the latest accepted WritePiece of this piece at this peer)
+    let accepted : Bytes := match (ma.hist.filter fun w => w.res == "ok" && w.pi == (i : Int)).getLast? with
+      | some w => w.payload
+      | none => pieceOf s.pl s.blob i      -- the `w` record always precedes its receive_piece event
     -- model: (request,) deliver, the WritePiece steps, resolve
     let sw1 := if pa.reqs.contains (b, i) then s.sw else KrakenModel.Swarm.step crc32 s.sw (.request a b i)
+    let wire := wirePayload pb i accepted      -- honest sender: its own bytes; corrupting sender: the accepted bytes
     let viaSwarm := match sw1.peers[a]? with
-      | some pa1 => pa1.reqs.contains (b, i) && pa1.present && pb.present && !pb.corrupt && hasPieceB pb i
+      | some pa1 => pa1.present && pb.present && wire == some accepted
       | none => false
     let tid := pa.tor.threads.length
     let sw2 :=
-      if viaSwarm then KrakenModel.Swarm.step crc32 sw1 (.deliver a b i [])
+      if viaSwarm then KrakenModel.Swarm.step crc32 sw1 (.deliver a b i accepted)
       else
-        -- the event order does not let the bookkeeping follow (request logged late, sender ahead of its own
-        -- event, connection already dropped): apply the delivery to the receiver's torrent directly
-        setPeer s.sw a { pa with tor := KrakenModel.AgentTorrent.step crc32 pa.tor (.spawn (i : Int) (pieceOf s.pl s.blob i)) }
+        -- the event order does not let the model's sender follow (it is ahead of its own event, or gone):
+        -- apply the accepted bytes to the receiver's torrent directly
+        setPeer s.sw a { pa with tor := KrakenModel.AgentTorrent.step crc32 pa.tor (.spawn (i : Int) accepted) }
     let sw3 := runCall sw2 a tid (max 1 s.pl) 64
     let r := ((sw3.peers[a]?).bind (·.tor.threads[tid]?)).bind (·.result)
     let sw4 := if viaSwarm then KrakenModel.Swarm.step crc32 sw3 (.resolve a tid) else sw3
     let obs := match r with | some x => [resTok x] | none => ["stuck"]
     pure (setPM { s with sw := sw4 } a (fun m => { m with received := i :: m.received }),
-          { obs := obs, branch := if viaSwarm then "receive.swarm" else "receive.direct", propfails := pf })
+          { obs := obs, branch := (if viaSwarm then "receive.swarm" else "receive.direct") ++ s!".from_{mb.role}", propfails := pf })
   | ["complete", aT] => do
     let a ← peer? aT
     pure (setPM s a (fun m => { m with completeEv := true }), { obs := impl, branch := "complete_event" })
@@ -187,12 +196,15 @@ def stepCore (s : St) (kind : String) (args impl : List String) : Option (St × 
     let obs := [s!"dl={dl}", s!"complete={boolTok (complete p.tor)}", s!"bf={bitsTok (bitfield p.tor)}",
                 s!"cache={if p.tor.inCache then bytesTok p.tor.file else "-"}"]
     let n := npieces s
-    let have_ := (List.range n).filter fun i => m.initial.contains i || m.received.contains i
+    let seeder := m.role == "s" || m.role == "o" || m.role == "c" || m.role == "i"
+    let have_ := (List.range n).filter fun i => seeder || m.initial.contains i || m.received.contains i
     let pf :=
       histMon s a m ++
-      (if m.role == "a" && !m.left && dl == "timeout" then
+      (if (m.role == "a" || m.role == "k") && !m.left && dl == "timeout" then
         [s!"side=impl key=no-convergence agent p{a} did not finish its download (after a retry of the whole swarm)"] else []) ++
-      (if m.role == "a" && !m.left && dl != "ok" && dl != "timeout" then
+      (if (m.role == "a" || m.role == "k") && !m.left && dl == "timeout1" && cm == "1" then
+        [s!"side=impl key=download-hang agent p{a}: the blob is complete in its cache but Download has not returned"] else []) ++
+      (if (m.role == "a" || m.role == "k") && !m.left && dl != "ok" && dl != "timeout" && dl != "timeout1" then
         [s!"side=impl key=download-error agent p{a}: Download returned {dl}"] else []) ++
       (if dl == "ok" && cm != "1" then [s!"side=impl key=download-ok-incomplete agent p{a}: Download returned nil but the torrent is not complete"] else []) ++
       (if cm == "1" && bytes? cacheTok ≠ some s.blob then
@@ -219,6 +231,167 @@ def step (s : St) (kind : String) (args impl : List String) : Option (St × Step
 
 def machine : Machine := { σ := St, name := "sw", init := init, step := step }
 
+
+/-! ### machine `dsp`: one real Dispatcher with fake peers and a frozen clock -/
+
+structure DSt where
+  sw : Swarm
+  pl : Nat
+  blob : Bytes
+  names : List String := []            -- fake peer K is `names[K-1]`
+  out : List (Nat × Nat) := []          -- implementation side: requests sent and not yet answered / cleared
+  desync : Option String := none
+
+def dinit (cfg : List String) : Option DSt := do
+  let pl ← (kv? cfg "pl").bind nat?
+  let blob ← (kv? cfg "blob").bind bytes?
+  let pipe ← (kv? cfg "pipeline").bind nat?
+  if pl = 0 then none else
+  let mi := MetaInfo.ofBlob crc32 pl blob
+  -- origin peers get pipeline + 1 slots: the model's single limit is the larger one (it only has to admit
+  -- what the implementation does)
+  some { sw := { cfg := { maxConns := 1000, pipeline := pipe + 1 }, peers := [{ tor := KrakenModel.AgentTorrent.init mi }] },
+         pl := pl, blob := blob }
+
+def dpeer? (s : DSt) (tok : String) : Option Nat := (s.names.idxOf? tok).map (· + 1)
+
+def pairTok (s : DSt) (q : Nat × Nat) : String := s!"{s.names.getD (q.1 - 1) "p?"}:{q.2}"
+
+/-- `pK:i` / `pK:i:status` tokens -/
+def parsePairs (s : DSt) (tok : String) : List (Nat × Nat × String) :=
+  (list? tok).filterMap fun t =>
+    match t.splitOn ":" with
+    | [n, i] => do let k ← dpeer? s n; let j ← i.toNat?; pure (k, j, "")
+    | [n, i, st] => do let k ← dpeer? s n; let j ← i.toNat?; pure (k, j, st)
+    | _ => none
+
+def modelFailed (s : DSt) : List String :=
+  match s.sw.peers[0]? with
+  | some pa =>
+    let xs := (pa.invalid.map fun q => s!"{pairTok s q}:invalid") ++ (pa.expired.map fun q => s!"{pairTok s q}:expired")
+    xs.toArray.qsort (· < ·) |>.toList
+  | none => []
+
+/-- follow the requests the implementation sent with this op -/
+def followSent (s : DSt) (isResend : Bool) (sent : List (Nat × Nat × String)) : DSt × List String :=
+  sent.foldl (fun (acc : DSt × List String) (q : Nat × Nat × String) =>
+    let (st, bad) := acc
+    let (b, i, _) := q
+    let sw' :=
+      if !isResend then KrakenModel.Swarm.step crc32 st.sw (.request 0 b i)
+      else
+        -- resendFailedPieceRequests: justified by a failed request of ANOTHER peer for the same piece
+        match st.sw.peers[0]? with
+        | some pa =>
+          match ((pa.invalid ++ pa.expired).filter fun f => f.2 == i && f.1 != b).head? with
+          | some f => KrakenModel.Swarm.step crc32 st.sw (.resend 0 f.1 b i)
+          | none => st.sw
+        | none => st.sw
+    if sw' == st.sw then ({ st with out := (b, i) :: st.out }, bad ++ [pairTok st (b, i)])
+    else ({ st with sw := sw', out := (b, i) :: st.out }, bad)) (s, [])
+
+def dstepCore (s : DSt) (kind : String) (args impl : List String) : Option (DSt × StepOut) :=
+  if kind ≠ "op" then none else
+  let implHas := (kv? impl "has").getD "?"
+  let implSent := parsePairs s ((kv? impl "sent").getD "-")
+  let implFailed := parsePairs s ((kv? impl "failed").getD "-")
+  -- 1. the op's own model action
+  let pre : Option (DSt × String × List String) :=
+    match args with
+    | ["addpeer", name, bits, _] =>
+      if s.names.contains name then none else
+      let k := s.names.length + 1
+      let mi := MetaInfo.ofBlob crc32 s.pl s.blob
+      let pieces := bits.toList.map fun c => if c == '1' then PStatus.complete else PStatus.empty
+      let pk : Peer := { tor := { seedState mi s.blob with pieces := pieces }, corrupt := true, conns := [0] }
+      let sw := match s.sw.peers[0]? with
+        | some pa => { s.sw with peers := (s.sw.peers.set 0 { pa with conns := k :: pa.conns }) ++ [pk] }
+        | none => s.sw
+      some ({ s with sw := sw, names := s.names ++ [name] }, "addpeer", [])
+    | ["more", _] => some (s, "more", [])
+    | ["state"] => some (s, "state", [])
+    | ["tick", _] => some (s, "tick", [])
+    | ["resend"] => some (s, "resend", [])
+    | ["announce", name, iT] => do
+      let k ← dpeer? s name
+      let i ← nat? iT
+      let pk ← s.sw.peers[k]?
+      let pk' := { pk with tor := { pk.tor with pieces := pk.tor.pieces.set i .complete } }
+      some ({ s with sw := setPeer s.sw k pk' }, "announce", [])
+    | ["error", name, iT] => do
+      let k ← dpeer? s name
+      let i ← nat? iT
+      let wasOut := s.out.contains (k, i)
+      let pf := if wasOut && !(implFailed.any fun f => f.1 == k && f.2.1 == i && f.2.2 == "invalid") then
+        [s!"side=impl key=invalid-not-marked PIECE_REQUEST_FAILED of {name} for piece {i}: the request is not marked invalid"] else []
+      some ({ s with sw := KrakenModel.Swarm.step crc32 s.sw (.reqfail 0 k i), out := s.out.filter (· != (k, i)) },
+            "error", pf)
+    | ["payload", name, iT, pT] => do
+      let k ← dpeer? s name
+      let i ← nat? iT
+      let p ← bytes? pT
+      let pa ← s.sw.peers[0]?
+      let tid := pa.tor.threads.length
+      let sw1 := KrakenModel.Swarm.step crc32 s.sw (.deliver 0 k i p)
+      let sw2 := runCall sw1 0 tid (max 1 s.pl) 64
+      let r := ((sw2.peers[0]?).bind (·.tor.threads[tid]?)).bind (·.result)
+      let sw3 := KrakenModel.Swarm.step crc32 sw2 (.resolve 0 tid)
+      let good := p == pieceOf s.pl s.blob i
+      let had := hasPieceB pa i
+      let implHasI := (implHas.toList.getD i '0') == '1'
+      let wasOut := s.out.contains (k, i)
+      let pf :=
+        (if implHasI && !had && !good then [s!"side=impl key=accepted-corrupt piece {i} of {name} accepted although it is not the blob's piece"] else []) ++
+        (if !good && !had && wasOut && !(implFailed.any fun f => f.1 == k && f.2.1 == i && f.2.2 == "invalid") then
+          [s!"side=impl key=invalid-not-marked rejected payload of {name} for piece {i}: the request is not marked invalid"] else []) ++
+        (if good && !had && !implHasI then [s!"side=impl key=rejected-correct the blob's piece {i} from {name} was not accepted"] else [])
+      let out' := if implHasI then s.out.filter (·.2 != i) else s.out.filter (· != (k, i))
+      some ({ s with sw := sw3, out := out' }, s!"payload.{match r with | some x => resTok x | none => "stuck"}", pf)
+    | _ => none
+  match pre with
+  | none => none
+  | some (s1, br, pf0) =>
+    -- 2. requests that timed out (the clock moved): the implementation's failed list carries which
+    let s2 := implFailed.foldl (fun (st : DSt) f =>
+      if f.2.2 == "expired" then
+        match st.sw.peers[0]? with
+        | some pa =>
+          let want := (implFailed.filter fun g => g.2.2 == "expired" && g.1 == f.1 && g.2.1 == f.2.1).length
+          if pa.expired.count (f.1, f.2.1) ≥ want then st
+          else { st with sw := KrakenModel.Swarm.step crc32 st.sw (.expire 0 f.1 f.2.1) }
+        | none => st
+      else st) s1
+    -- 3. the requests sent by this op
+    let isResend := args == ["resend"]
+    let (s3, unexplained) := followSent s2 isResend implSent
+    -- monitors on the implementation's resend: never to the peer whose request for the piece failed,
+    -- unless another peer's request for that piece failed too
+    let pfResend := if !isResend then [] else
+      implSent.filterMap fun q =>
+        let fails := implFailed.filter fun f => f.2.1 == q.2.1 && (f.2.2 == "invalid" || f.2.2 == "expired")
+        if !fails.isEmpty && fails.all (fun f => f.1 == q.1) then
+          some s!"side=impl key=resent-to-failed-peer piece {q.2.1} re-sent to {pairTok s2 (q.1, q.2.1)} whose request for it failed"
+        else if fails.isEmpty then
+          some s!"side=impl key=resent-without-failure piece {q.2.1} re-sent to {pairTok s2 (q.1, q.2.1)} although no request for it failed"
+        else none
+    let has := match s3.sw.peers[0]? with | some pa => bitsTok (bitfield pa.tor) | none => "?"
+    let sentTok := if unexplained.isEmpty then (kv? impl "sent").getD "-" else "unexplained:" ++ listTok unexplained
+    let obs := [s!"has={has}", s!"sent={sentTok}", s!"failed={listTok (modelFailed s3)}"]
+    some (s3, { obs := obs, branch := s!"d.{br}{if isResend && !implSent.isEmpty then ".sent" else ""}", propfails := pf0 ++ pfResend })
+
+def dstep (s : DSt) (kind : String) (args impl : List String) : Option (DSt × StepOut) :=
+  if kind = "op" ∧ args = ["done"] then
+    some (s, { obs := match s.desync with | none => ["ok"] | some d => ["desync", d], branch := "done" })
+  else match dstepCore s kind args impl with
+    | none => none
+    | some (s', out) =>
+      if !impl.isEmpty && out.obs != impl then
+        let d := (s!"{sp args}:model={sp out.obs}:impl={sp impl}").replace " " "_"
+        some ({ s' with desync := s'.desync <|> some d }, { out with obs := impl, branch := out.branch ++ "!desync" })
+      else some (s', out)
+
+def dmachine : Machine := { σ := DSt, name := "dsp", init := dinit, step := dstep }
+
 end C19
 
-def main (args : List String) : IO UInt32 := runMachines [C19.machine] args
+def main (args : List String) : IO UInt32 := runMachines [C19.machine, C19.dmachine] args
